@@ -312,6 +312,11 @@ type lsSystem struct {
 
 func lsGenSystem(r *Rng, cfg Cfg, idx int, s *Stream) *lsSystem {
 	sys := &lsSystem{Kind: deriveKinds[idx%3], Threshold: int(lsLevels[(idx/3)%5]), Colorful: r.Chance(15)}
+	if idx%11 == 10 {
+		// thresholds are plain integers: between, below and above the five named levels
+		sys.Threshold = Pick(r, []int{-4, -1, 1, 2, 6, 9, 13, 15})
+		s.Count("system.unnamed-threshold")
+	}
 	quiet := &Stream{Dist: map[string]int{}, Distinct: map[string]int{}}
 	nPre := 1 + r.Intn(4)
 	for i := 0; i < nPre; i++ {
